@@ -31,7 +31,10 @@ REQ = ["MV.Model.Orch", "MV.Model.OrchCheck"]
 EXTRA = """
 Definition chk_wf (c : plan * list (nat * list nat)) := wf_plan_auto (fst c) && req_covers (fst c) (snd c).
 Definition chk_cf (c : plan * foot) := conflict_free (fst c) (snd c).
+Definition chk_cfip (c : plan * foot * styles * colsig) :=
+  let '(p, f, y, k) := c in conflict_free_ip p f y && ip_cols_ok p f y k.
 """
+CFIP_TYPE = "plan * foot * styles * colsig"
 
 
 def inputs_of(spec: Dict[str, Any]) -> Dict[str, List[str]]:
@@ -82,6 +85,36 @@ def cq_foot(foot: Dict[int, Tuple[int, List[int]]]) -> str:
     return cq_list(f"({cq_nat(s)}, ({cq_nat(w)}, {cq_list(cq_nat(x) for x in r)}))" for s, (w, r) in sorted(foot.items()))
 
 
+def cq_styles(style: Dict[Any, bool]) -> str:
+    """observed result style per step (sid -> the calculation was in place), Model/OrchCheck.styles"""
+    return cq_list(f"({cq_nat(int(s))}, {cq_bool(bool(v))})" for s, v in sorted((int(k), v) for k, v in style.items()))
+
+
+def cq_cols(spec: Dict[str, Any], plan: Dict[str, Any]) -> str:
+    """columns written / read per feature-group step (Model/OrchCheck.colsig): the names of the features the step computes and
+    the inputs of these features according to the spec, numbered over all column names of the spec"""
+    names: List[str] = []
+    for g in spec["groups"]:
+        for n in (g["cols"] if g["kind"] in ("root", "api") else g["features"]):
+            if n not in names:
+                names.append(n)
+    ids = {n: i for i, n in enumerate(sorted(names))}
+    ins = inputs_of(spec)
+    out = []
+    for st in plan["steps"]:
+        if st["kind"] != "FG":
+            continue
+        # a requested feature and the equally named input of a consumer are two Feature objects of one step: ONE column
+        w = sorted({ids[n] for n in st["names"] if n in ids})
+        r = sorted({ids[i] for n in st["names"] for i in ins.get(n, []) if i in ids})
+        out.append(f"({cq_nat(st['sid'])}, ({cq_list(cq_nat(x) for x in w)}, {cq_list(cq_nat(x) for x in r)}))")
+    return cq_list(out)
+
+
+def cfip_term(r: Dict[str, Any]) -> str:
+    return f"({cq_plan(r['plan'])}, {cq_foot(r['sync']['foot'])}, {cq_styles(r['sync'].get('style') or {})}, {cq_cols(r['spec'], r['plan'])})"
+
+
 def cq_status(s: str) -> str:
     return {"ok": "OOk", "raised": "ORaised"}.get(s, "OHang")
 
@@ -114,25 +147,38 @@ def one_spec(spec: Dict[str, Any], rng: random.Random, n_sched: int) -> Dict[str
     o = run_observed(sess, ren=plan["_ren"])
     rec: Dict[str, Any] = {"spec": spec, "plan": {k: v for k, v in plan.items() if k != "_ren"}, "adj": adj,
                            "sync": {"begin": o["begin_order"], "scans": o["scans"], "status": o["status"], "foot": o["foot"],
-                                    "orders": o.get("orders")},
+                                    "orders": o.get("orders"), "style": o.get("style") or {}},
                            "gated": []}
     rec["sync"]["judge"] = judge_trace(spec, gl.events, plan, o["begin_order"], o["status"], gl.calls)
     rec["sync"]["raised"] = o["raised_steps"]
     rec["sync"]["exc"] = str(o.get("exc"))[-300:] if o["status"] == "raised" else None
     base = canon_result(o["result"]) if o["status"] == "ok" else None
-    for k in range(n_sched):
+    prefs: List[Optional[List[int]]] = [None] * n_sched
+    if n_sched and spec.get("family") == "inplace_siblings":
+        # the unordered siblings are few: EVERY order in which they can finish is run (not a PRNG sample)
+        import itertools
+        sib = sorted({str(s_["group"]) for s_ in plan["steps"] if s_["kind"] == "FG" and str(s_["group"]).startswith("S")})
+        prefs = [list(p_) for p_ in itertools.permutations(sib)]        # by group NAME: step numbers belong to one preparation
+    for k, pref in enumerate(prefs):
         gl2 = GateListener()
         uni2 = Universe(spec, gl2)
         sess2 = uni2.prepare()
         plan2 = export_plan(sess2, uni2)
-        g = run_gated(uni2, sess2, plan2, random.Random(rng.random()))
+        chooser = None
+        if pref is not None:
+            sid_of = {str(s_["group"]): s_["sid"] for s_ in plan2["steps"] if s_["kind"] == "FG"}
+            pref_sids = [sid_of[gn] for gn in pref if gn in sid_of]
+
+            def chooser(expected: List[int], _p: List[int] = pref_sids) -> int:
+                return next((x for x in _p if x in expected), expected[0])
+        g = run_gated(uni2, sess2, plan2, random.Random(rng.random()), choose=chooser)
         jr = judge_trace(spec, gl2.events, plan2, g["begin_order"], g["status"], gl2.calls)
         same = None
         if g["status"] == "ok" and base is not None:
             same = canon_result(g["result"]) == base
         rec["gated"].append({"plan": {k: v for k, v in plan2.items() if k != "_ren"}, "rounds": g["rounds"],
                              "status": g["status"], "problem": g["problem"], "judge": jr, "same_as_sync": same,
-                             "exc": (str(g.get("exc"))[-200:] if g["status"] == "raised" else None)})
+                             "exc": (" ".join(str(g.get("exc")).split())[:220] if g["status"] == "raised" else None)})
     return rec
 
 
@@ -155,6 +201,13 @@ def run(rep: vlib.Reporter, tier: str, seed: int) -> None:
     n_gated_specs = 120 if big else 14
     n_sched = 8 if big else 4
     specs, gstats = gen_specs(rng, n_specs)
+    # unordered IN-PLACE siblings on one pandas / python-dict object + a consumer of all of them; every finish order of the
+    # siblings is run under the gating scheduler (one in four families has a replacing sibling: the recorded hazard)
+    n_fam = 24 if big else 4
+    fam = [daggen.gen_inplace_siblings(rng, all_inplace=(k % 4 != 3)) for k in range(n_fam)]
+    specs = fam + specs
+    n_gated_specs += n_fam
+    gstats["inplace_sibling_families"] = n_fam
     recs = []
     for i, spec in enumerate(specs):
         recs.append(one_spec(spec, rng, n_sched if i < n_gated_specs else 0))
@@ -171,6 +224,12 @@ def run(rep: vlib.Reporter, tier: str, seed: int) -> None:
     # conflicts (known-finding domain classifier)
     cf_terms = [f"({cq_plan(r['plan'])}, {cq_foot(r['sync']['foot'])})" for r in recs]
     has_conflict = set(vlib.run_cases("C01", "cf", REQ, "chk_cf", cf_terms, extra_defs=EXTRA, case_type="plan * foot", shard=60)[0])
+    # ... weakened by Props/C06inplace.v: unordered steps that are BOTH in place (observed) on one object and touch different
+    # columns are no hazard.  not_ip = plans the weakened classifier does not clear either.
+    pr_ip = vlib.build_props("C06inplace")
+    rep.proof(pr_ip)
+    not_ip = set(vlib.run_cases("C01", "cfip", REQ, "chk_cfip", [cfip_term(r) for r in recs], extra_defs=EXTRA, case_type=CFIP_TYPE, shard=60)[0])
+    cleared_by_ip = has_conflict - not_ip
     # T2 routing: which object every begun step worked on (Model/Routing.v) = observed footprints (plans without JoinStep)
     rt_idx = []
     rt_items = []
@@ -200,7 +259,9 @@ def run(rep: vlib.Reporter, tier: str, seed: int) -> None:
     n_runs = len(recs) + sum(len(r["gated"]) for r in recs)
     rep.count(n_runs)
     dist = {"specs": len(recs), "generator": gstats, "steps_hist": {}, "with_tfs": 0, "with_join": 0,
-            "plans_with_unordered_conflicts": len(has_conflict), "gated_histories": len(gated_terms),
+            "plans_with_unordered_conflicts": len(has_conflict), "of_them_in_place_only (conflict_free_ip)": len(cleared_by_ip),
+            "observed_in_place_steps": sum(1 for r in recs for v in (r["sync"].get("style") or {}).values() if v),
+            "gated_histories": len(gated_terms),
             "gated_rounds_with_choice": 0, "gated_failures": 0}
     for i, r in enumerate(recs):
         n = len(r["plan"]["steps"])
@@ -218,6 +279,8 @@ def run(rep: vlib.Reporter, tier: str, seed: int) -> None:
                     "from earlier groups or earlier features of the same group => intra-group levels), frameworks from "
                     "{PyArrow, Pandas, PythonDict} possibly changing between groups; 20% two roots with an inner link; kept "
                     "when the SYNC run succeeds. Each spec: SYNC run + up to n gated THREADING runs with PRNG release order. "
+                    "Plus families of 2-3 unordered in-place siblings (pandas mutate / Series, python-dict rows) under one consumer, "
+                    "run under EVERY finish order of the siblings. "
                     "non-trivial = the plan has an intra-group level split or a gated run had >= 2 concurrently enabled steps")
     rep.add("traces_validated_against_impl", len(recs) + len(gated_terms))
 
@@ -232,7 +295,7 @@ def run(rep: vlib.Reporter, tier: str, seed: int) -> None:
         if kf_framework_roundtrip(plan):
             rep.finding("C01-framework-roundtrip-wrong-object", what, replay)
             return False
-        if gated and i in has_conflict:
+        if gated and i in has_conflict and i in not_ip:
             rep.finding("C01-unordered-conflicting-steps", what, replay)
             return False
         rep.finding(vkey, what, replay)
@@ -337,9 +400,10 @@ def run(rep: vlib.Reporter, tier: str, seed: int) -> None:
     rep.sample({"spec": recs[0]["spec"], "plan_steps": [(s["kind"], s["uuids"], s["req"]) for s in recs[0]["plan"]["steps"]],
                 "sync_begin_order": recs[0]["sync"]["begin"],
                 "gated_rounds": recs[0]["gated"][0]["rounds"] if recs[0]["gated"] else None})
-    if not pr.ok and not found:
-        rep.finding("proof-broken", "Props/C01.v no longer checks",
-                    {"failed_files": pr.failed_files, "forbidden": pr.forbidden, "log_tail": pr.log[-3000:]}, found_input=False)
+    if not (pr.ok and pr_ip.ok) and not found:
+        rep.finding("proof-broken", "Props/C01.v / Props/C06inplace.v no longer checks",
+                    {"failed_files": pr.failed_files + pr_ip.failed_files, "forbidden": pr.forbidden + pr_ip.forbidden,
+                     "log_tail": (pr.log if not pr.ok else pr_ip.log)[-3000:]}, found_input=False)
 
 
 def replay(path: str) -> int:
@@ -359,8 +423,13 @@ def replay(path: str) -> int:
                 if x in expected:
                     return x
             return expected[0]
+        gl0 = GateListener()
+        uni0 = Universe(spec, gl0)
+        o0 = run_observed(uni0.prepare())
         g = run_gated(uni, sess, plan, random.Random(0), choose=choose)
         print("status:", g["status"], "problem:", g["problem"], "rounds:", g["rounds"])
+        print("SYNC:", o0["status"], "observed in-place steps (SYNC):", sorted(k for k, v in (o0.get("style") or {}).items() if v),
+              "same result as SYNC:", g["status"] == "ok" and o0["status"] == "ok" and canon_result(g["result"]) == canon_result(o0["result"]))
         print("judge:", judge_trace(spec, gl.events, plan, g["begin_order"], g["status"], gl.calls))
         if g["status"] == "raised":
             print(str(g.get("exc"))[-400:])
